@@ -29,6 +29,7 @@ from harness.common import rat
 from harness.common import rats
 
 PID = "C13"
+SHRINK_S = 40.0  # wall-clock budget of one shrinking loop (a smaller replay is a convenience, not a verdict)
 EVENT_WAIT_S = 20.0  # an expected event later than this: the harness stops steering the run (no verdict by itself)
 
 TRUSTED_EXTRA = (
@@ -1995,12 +1996,13 @@ def hist_result_string(case, obs) -> str:
     return "hang"
 
 
-def gen_hist_case(rng: common.Rng, backend: str, api: str | None = None) -> dict[str, Any]:
+def gen_hist_case(rng: common.Rng, backend: str, api: str | None = None, n_procs: int | None = None,
+                  first_style: str | None = None, n_calls: int | None = None) -> dict[str, Any]:
     api = api or rng.pick(["callable", "callable", "exec", "lin", "exec1", "lin1"])
     if api in ("exec1", "lin1"):
         backend = "process"  # one discipline object run by several threads at once is not a supported use
-    n_calls = rng.pick([2, 2, 3])
-    n_procs = rng.pick([1, 2, 3])
+    n_calls = n_calls or rng.pick([2, 2, 3])
+    n_procs = n_procs or rng.pick([1, 2, 3])
     fixed_n = rng.randint(2, 4) if api in ("exec", "lin") else None
     sizes = [fixed_n or rng.randint(2, 4) for _ in range(n_calls)]
     case: dict[str, Any] = {"kind": "hist", "api": api, "backend": backend, "n_procs": n_procs}
@@ -2018,7 +2020,7 @@ def gen_hist_case(rng: common.Rng, backend: str, api: str | None = None) -> dict
         case["gate_on"] = "jac" if api in ("lin", "lin1") and rng.chance(0.5) else "run"
     pool = list(range(-20, 21))
     rng.shuffle(pool)
-    first_style = rng.pick(["stop0", "stop0", "stopmid", "stopmid", "stopany", "fail", "clean"])
+    first_style = first_style or rng.pick(["stop0", "stop0", "stopmid", "stopmid", "stopany", "fail", "clean"])
     calls = []
     for k, n in enumerate(sizes):
         if api == "callable":
@@ -2081,8 +2083,9 @@ def shrink_hist_case(case, key: str):
 
     cur = case
     budget = 14
+    t_end = time.time() + SHRINK_S
     improved = True
-    while improved and budget > 0:
+    while improved and budget > 0 and time.time() < t_end:
         improved = False
         cands = []
         nc = len(cur["calls"])
@@ -2097,7 +2100,7 @@ def shrink_hist_case(case, key: str):
             cands.append(dict(cur, n_procs=cur["n_procs"] - 1, calls=calls))
         for c in cands:
             budget -= 1
-            if budget <= 0:
+            if budget <= 0 or time.time() > t_end:
                 break
             if fails(c):
                 cur = c
@@ -2169,6 +2172,595 @@ def check_hist_cases(res: Result, cases: list[dict[str, Any]], deadline: float) 
                              "correspondence": "Driver/C13.lean init/call + transitions S/T/F/C/X + result"})
 
 
+# ----------------------------------------------------------------------------- shared cache: execute + linearize interleavings
+# case: {"kind": "xlin", "api": "lin"|"lin1"|"execlin"|"exec+lin", "mode": "thread"|"process", "n_procs": int,
+#        "poly": [a, b, c] (y = a x^2 + b x + c, dy/dx = 2 a x + b), "xs": ["p/q", ...] (distinct),
+#        "fail_run": [task indices], "fail_jac": [task indices], "script": [["E"|"J", k], ...]}
+# Every task k executes then linearizes ITS input x_k through a discipline whose cache is one MemoryFullCache shared by
+# all the workers (threads: one object; processes: shared memory).  Two gates per task: "E" inside `_run` (before the
+# outputs are cached), "J" inside `_compute_jacobian` (before the Jacobian is cached); the script is the forced order
+# in which the gates are opened, each opening being acknowledged by an observable event (next gate reached / callback)
+# before the next one — no wall-clock assumption.  api: `lin` = DiscParallelLinearization over one discipline per task,
+# `lin1` = DiscParallelLinearization of one discipline over n inputs (forked workers), `execlin` =
+# CallableParallelExecution of "execute, then linearize", `exec+lin` = DiscParallelExecution then
+# DiscParallelLinearization of the same disciplines (script: the E's, then the J's).
+
+
+def xlin_phases(case) -> list[dict[str, Any]]:
+    """The successive parallel calls of the case: for each, the gates every task goes through (`plan`), whether the
+    task succeeds (`ok`) and the opening order (`script`)."""
+    n = len(case["xs"])
+    fr, fj = set(case.get("fail_run", [])), set(case.get("fail_jac", []))
+    if case["api"] == "exec+lin":
+        return [
+            {"what": "exec", "plan": [["E"] for _ in range(n)], "ok": [True] * n,
+             "script": [a for a in case["script"] if a[0] == "E"]},
+            {"what": "lin", "plan": [["J"] for _ in range(n)], "ok": [k not in fj for k in range(n)],
+             "script": [a for a in case["script"] if a[0] == "J"]},
+        ]
+    plan = [["E"] if k in fr else ["E", "J"] for k in range(n)]
+    return [{"what": "lin", "plan": plan, "ok": [k not in fr and k not in fj for k in range(n)], "script": case["script"]}]
+
+
+class XMirror:
+    """Test control for the two-gate tasks (which gate can be opened next); neither the oracle nor the model."""
+
+    def __init__(self, n: int, n_procs: int, plan: list[list[str]]) -> None:
+        self.plan = plan
+        self.not_started = list(range(n))
+        self.at: dict[int, int] = {}  # running task -> index in its plan of the gate it waits at
+        for _ in range(min(n, n_procs)):
+            self.at[self.not_started.pop(0)] = 0
+
+    def actions(self) -> list[tuple[str, int]]:
+        return [(self.plan[k][i], k) for k, i in sorted(self.at.items())]
+
+    def apply(self, act: tuple[str, int]) -> dict[str, Any]:
+        _, k = act
+        i = self.at[k]
+        if i + 1 < len(self.plan[k]):
+            self.at[k] = i + 1
+            return {"finished": False, "next_gate": self.plan[k][i + 1], "start": None}
+        del self.at[k]
+        start = None
+        if self.not_started:
+            start = self.not_started.pop(0)
+            self.at[start] = 0
+        return {"finished": True, "next_gate": None, "start": start}
+
+    def done(self) -> bool:
+        return not self.at and not self.not_started
+
+
+def random_xscript(rng: common.Rng, n: int, n_procs: int, plan: list[list[str]], bias: str) -> list[list]:
+    m = XMirror(n, n_procs, plan)
+    acc = []
+    while not m.done():
+        acts = m.actions()
+        es = [a for a in acts if a[0] == "E"]
+        js = [a for a in acts if a[0] == "J"]
+        if bias == "E-first" and es:
+            a = rng.pick(es)  # every running worker caches its outputs before any Jacobian is cached
+        elif bias == "E-first-J-reverse" and (es or js):
+            a = es[0] if es else js[-1]
+        elif bias == "J-first" and js:
+            a = rng.pick(js)
+        else:
+            a = rng.pick(acts)
+        m.apply(a)
+        acc.append(list(a))
+    return acc
+
+
+def xlin_exact(case, x) -> tuple[Fraction, Fraction]:
+    a, b, c = (Fraction(t) for t in case["poly"])
+    x = Fraction(x)
+    return a * x * x + b * x + c, 2 * a * x + b
+
+
+def _entry_triplet(e) -> tuple:
+    jac = None
+    if e.jacobian:
+        try:
+            jac = _scalar(e.jacobian["y"]["x"])
+        except Exception:  # noqa: BLE001
+            jac = "?"
+    return (_scalar(e.inputs.get("x")) if e.inputs else None, _scalar(e.outputs.get("y")) if e.outputs else None, jac)
+
+
+def _cache_snapshot(cache) -> dict[str, Any]:
+    entries = [_entry_triplet(e) for e in cache.get_all_entries()]
+    last = cache.last_entry
+    return {"entries": entries, "last": _scalar(last.inputs.get("x")) if last.inputs else None, "len": len(cache)}
+
+
+def _snap_string(snap) -> str:
+    def o(v):
+        return "?" if v == "?" else common.orat(v)
+
+    return ";".join(f"{o(x)}:{o(y)}:{o(j)}" for x, y, j in snap["entries"]) or "[]"
+
+
+def run_xlin_case(case) -> dict[str, Any]:
+    import multiprocessing
+
+    from gemseo.caches.memory_full_cache import MemoryFullCache
+    from gemseo.core.parallel_execution.callable_parallel_execution import CallableParallelExecution
+    from gemseo.core.parallel_execution.disc_parallel_execution import DiscParallelExecution
+    from gemseo.core.parallel_execution.disc_parallel_linearization import DiscParallelLinearization
+    from numpy import array
+
+    from harness import c13_disc
+    from harness.c13_disc import ExecThenLin
+    from harness.c13_disc import GatedQuad
+    from harness.c13_tasks import Gate
+
+    api = case["api"]
+    proc = case["mode"] == "process"
+    xs = [Fraction(t) for t in case["xs"]]
+    n = len(xs)
+    a, b, c = case["poly"]
+    mp = multiprocessing.get_context("fork")
+    n_runs, n_jacs = mp.Value("i", 0), mp.Value("i", 0)
+    key_of = {(float(x),): k for k, x in enumerate(xs)}
+    inputs = [{"x": array([float(x)])} for x in xs]
+    cache = MemoryFullCache(is_memory_shared=proc)
+
+    def make(name: str, token, gated: bool = True, cached: bool = True):
+        d = GatedQuad(name, a, b, c, token, key_of if gated else None, n, tuple(case.get("fail_run", [])),
+                      tuple(case.get("fail_jac", [])), n_runs, n_jacs)
+        d.cache = cache if cached else None
+        d.add_differentiated_inputs(["x"])
+        d.add_differentiated_outputs(["y"])
+        return d
+
+    obs: dict[str, Any] = {"hang": None, "gate_timeouts": 0, "notes": [], "lines": ["kinit"], "checks": [], "phases": []}
+    lines = obs["lines"]
+    snaps: list[tuple[int, dict[str, Any]]] = []  # (index of the `ko`/`kj` line, real cache after the same write)
+    gate = Gate(2 * n, proc)
+    token = c13_disc.register(gate)
+    ds = [make("Q", token)] if api == "lin1" else [make(f"Q{i}", token) for i in range(n)]
+    stderr = io.StringIO()
+    try:
+        for ph in xlin_phases(case):
+            cb = _Callback(False)
+            box: dict[str, Any] = {}
+            done = threading.Event()
+            if ph["what"] == "exec":
+                ex = DiscParallelExecution(ds, n_processes=case["n_procs"], use_threading=not proc)
+                call = lambda ex=ex: ex.execute(inputs, exec_callback=lambda i, data: cb(i, _scalar(data["y"])))  # noqa: E731
+                spec = f"Q:{a}:{b}:{c}:-:-"
+            elif api == "execlin":
+                ex = CallableParallelExecution([ExecThenLin(d) for d in ds], n_processes=case["n_procs"], use_threading=not proc)
+                call = lambda ex=ex: ex.execute(inputs, exec_callback=lambda i, j: cb(i, _scalar(j["y"]["x"])))  # noqa: E731
+                spec = None
+            else:
+                ex = DiscParallelLinearization(ds, n_processes=case["n_procs"], use_threading=not proc)
+                call = lambda ex=ex: ex.execute(inputs, exec_callback=lambda i, wd: cb(i, _scalar(wd.jacobian["y"]["x"])))  # noqa: E731
+                spec = None
+            if spec is None:
+                fails = [rat(xs[k]) for k in range(n) if not ph["ok"][k]]
+                spec = f"{2 * a}:{b}:{'|'.join(fails) or '-'}:-"
+            lines.append(f"init {case['n_procs']} {rats(xs)} " + ";".join([spec] * len(ds)))
+            lines.extend(["S"] * n)
+
+            def runner(call=call, box=box, done=done) -> None:
+                try:
+                    box["result"] = ("returned", call())
+                except BaseException as e:  # noqa: BLE001
+                    box["result"] = ("raised", e)
+                finally:
+                    done.set()
+
+            idents: list[tuple[int, int]] = []
+            wid_of: dict[int, int] = {}
+            started: list[int] = []
+
+            def gate_key(stage: str, k: int) -> int:
+                return k if stage == "E" else n + k
+
+            def get_event(want: int) -> int:
+                """Wait for the next gate to be reached; it must be gate `want`.  Returns the worker number."""
+                try:
+                    g, pid, tid = gate.started.get(timeout=EVENT_WAIT_S)
+                except queue.Empty:
+                    raise Hang(f"gate {want} was never reached") from None
+                started.append(g)
+                if (pid, tid) not in idents:
+                    idents.append((pid, tid))
+                if g != want:
+                    raise Hang(f"gate {g} was reached while gate {want} was expected", timeout=False)
+                return idents.index((pid, tid))
+
+            def take(k: int, wid: int) -> None:
+                lines.append(f"T {wid}")
+                obs["checks"].append((len(lines) - 1, "busy", f"{wid}:B{k}"))
+                wid_of[k] = wid
+
+            def cache_line(stage: str, k: int) -> None:
+                y, j = xlin_exact(case, xs[k])
+                lines.append(f"ko {rat(xs[k])} {rat(y)}" if stage == "E" else f"kj {rat(xs[k])} {rat(j)}")
+                snaps.append((len(lines) - 1, _cache_snapshot(cache)))
+
+            mirror = XMirror(n, case["n_procs"], ph["plan"])
+            th = threading.Thread(target=runner, daemon=True)
+            with contextlib.redirect_stderr(stderr):
+                th.start()
+                try:
+                    first = sorted(mirror.at)
+                    got: dict[int, int] = {}
+                    for _ in first:
+                        try:
+                            g, pid, tid = gate.started.get(timeout=EVENT_WAIT_S)
+                        except queue.Empty:
+                            raise Hang("no worker reached the first gate of its task") from None
+                        started.append(g)
+                        if (pid, tid) not in idents:
+                            idents.append((pid, tid))
+                        got[g] = idents.index((pid, tid))
+                    want0 = {gate_key(ph["plan"][k][0], k): k for k in first}
+                    if set(got) != set(want0):
+                        raise Hang(f"gates {sorted(got)} were reached first, expected {sorted(want0)}", timeout=False)
+                    for g in sorted(got):
+                        take(want0[g], got[g])
+                    for act in ph["script"]:
+                        act = tuple(act)
+                        if act not in mirror.actions():
+                            raise Hang(f"script action {act} impossible in the mirrored pool state", timeout=False)
+                        stage, k = act
+                        eff = mirror.apply(act)
+                        gate.release[gate_key(stage, k)].set()
+                        if not eff["finished"]:
+                            get_event(gate_key(eff["next_gate"], k))
+                            cache_line(stage, k)
+                            continue
+                        if ph["ok"][k]:
+                            try:
+                                i = cb.events.get(timeout=EVENT_WAIT_S)
+                            except queue.Empty:
+                                raise Hang(f"callback for task {k} never called") from None
+                            if i != k:
+                                raise Hang(f"callback for index {i} while {k} was expected", timeout=False)
+                            cache_line(stage, k)
+                        lines.append(f"F {wid_of.pop(k)}")
+                        lines.append("C")
+                        if ph["ok"][k]:
+                            obs["checks"].append((len(lines) - 1, "cb", fmt_cbs(cb.log)))
+                        if eff["start"] is not None:
+                            k2 = eff["start"]
+                            take(k2, get_event(gate_key(ph["plan"][k2][0], k2)))
+                    if not done.wait(EVENT_WAIT_S):
+                        raise Hang("the call did not return after every gate was opened")
+                    lines.append("X")
+                    lines.extend(f"T {w}" for w in range(len(idents)))
+                    lines.append("result")
+                    obs["checks"].append((len(lines) - 1, "result", None))
+                except Hang as h:
+                    obs["deviation"] = str(h)
+                    obs["timeout"] = h.timeout
+                    gate.open_all()
+                    if not done.wait(EVENT_WAIT_S):
+                        obs["hang"] = str(h)
+            obs["phases"].append({"what": ph["what"], "result": box.get("result", ("hang", None)), "cb_log": list(cb.log),
+                                  "started": started})
+            if obs["hang"] is not None or "deviation" in obs:
+                break
+            for g in range(2 * n):
+                gate.release[g].clear()
+    finally:
+        c13_disc.unregister(token)
+    obs["gate_timeouts"] = gate.timeouts
+    obs["snaps"] = snaps
+    obs["result"] = obs["phases"][-1]["result"]
+    obs["cb_log"] = obs["phases"][-1]["cb_log"]
+    if unusable(obs):
+        return obs
+    # ---- what the shared cache holds afterwards, and what it serves
+    try:
+        obs["final"] = _cache_snapshot(cache)
+        look = []
+        for x in xs:
+            e = cache[{"x": array([float(x)])}]
+            look.append(_entry_triplet(e)[1:])
+        obs["lookups"] = look
+        r0, j0 = n_runs.value, n_jacs.value
+        later = []
+        for k, x in enumerate(xs):
+            if k in case.get("fail_run", []) or k in case.get("fail_jac", []):
+                later.append(None)
+                continue
+            d = make(f"later{k}", None, gated=False)
+            jac = d.linearize({"x": array([float(x)])})
+            later.append((_scalar(d.io.data.get("y")), _scalar(jac["y"]["x"])))
+        obs["later"] = later
+        obs["later_new_computations"] = (n_runs.value - r0, n_jacs.value - j0)
+        twin = []
+        for k, x in enumerate(xs):
+            if k in case.get("fail_run", []) or k in case.get("fail_jac", []):
+                twin.append(None)
+                continue
+            d = make(f"twin{k}", None, gated=False, cached=False)
+            out = d.execute({"x": array([float(x)])})
+            jac = d.linearize({"x": array([float(x)])})
+            twin.append((_scalar(out["y"]), _scalar(jac["y"]["x"])))
+        obs["twin"] = twin
+    except Exception as e:  # noqa: BLE001
+        obs["cache_error"] = f"{common.exc_class(e)}: {e}"
+    return obs
+
+
+def xlin_oracle(case, obs) -> list[tuple[str, str]]:
+    """Property text: parallel execution + linearization give the data and Jacobians of the sequential computation,
+    including when the workers share a cache — the Jacobians returned, and everything the shared cache holds or
+    serves afterwards (entries, look-ups, a later linearization), are those of the sequential uncached twin."""
+    if unusable(obs):
+        return []
+    bad: list[tuple[str, str]] = []
+    xs = [Fraction(t) for t in case["xs"]]
+    n = len(xs)
+    fr, fj = set(case.get("fail_run", [])), set(case.get("fail_jac", []))
+    exact = [xlin_exact(case, x) for x in xs]
+
+    def eq(g, w) -> bool:
+        return g is not None and g != "?" and common.is_finite_num(g) and common.F(g) == w
+
+    for ph in obs["phases"]:
+        kind, val = ph["result"]
+        if kind != "returned":
+            return [("raises", f"the parallel {ph['what']} raised {val!r}")]
+        if not (isinstance(val, list) and len(val) == n):
+            return [("positional-results", f"the parallel {ph['what']} returned {val!r} for {n} inputs")]
+        exp_cbs = []
+        for k in range(n):
+            ok = True if ph["what"] == "exec" else (k not in fr and k not in fj)
+            want = exact[k][0] if ph["what"] == "exec" else exact[k][1]
+            if not ok:
+                if val[k] is not None:
+                    bad.append(("positional-results", f"{ph['what']}: slot {k} of a failing task holds {val[k]!r}"))
+                continue
+            exp_cbs.append((k, float(want)))
+            try:
+                got = _scalar(val[k]["y"]) if ph["what"] == "exec" else _scalar(val[k]["y"]["x"])
+            except Exception:  # noqa: BLE001
+                got = None
+            if not eq(got, want):
+                bad.append(("positional-results", f"{ph['what']}: slot {k} (input {xs[k]}) holds {got}, the sequential computation gives {want}"))
+        if not (sorted(ph["cb_log"]) == exp_cbs):
+            bad.append(("callbacks", f"{ph['what']}: callback calls {ph['cb_log']} are not once per successful task with the matching index {exp_cbs}"))
+    if "cache_error" in obs:
+        return bad + [("cache-raises", f"reading / re-using the shared cache raised {obs['cache_error']}")]
+    if "deviation" in obs:
+        return bad  # the gates were opened at once: which writes happened is not known, only the results are judged
+    # entries: one per input whose outputs were cached, with ITS outputs and (if its linearization succeeded) ITS Jacobian
+    by_x: dict[Fraction, list] = {}
+    for x, y, j in obs["final"]["entries"]:
+        if x is None or not common.is_finite_num(x):
+            bad.append(("cache-entries", f"a cache entry has no input data: {obs['final']['entries']}"))
+            continue
+        by_x.setdefault(common.F(x), []).append((y, j))
+    for k, x in enumerate(xs):
+        es = by_x.pop(x, [])
+        want_y, want_j = exact[k]
+        if k in fr:
+            if es:
+                bad.append(("cache-entries", f"input {x} (whose execution fails) has cache entries {es}"))
+            continue
+        if len(es) != 1:
+            bad.append(("cache-entries", f"input {x} has {len(es)} cache entries, the sequential run with this cache has exactly one"))
+            continue
+        y, j = es[0]
+        if not eq(y, want_y):
+            bad.append(("cache-entry-outputs", f"the shared cache maps input x={x} to outputs y={y}; the sequential uncached computation gives {want_y}"))
+        if k in fj:
+            if j is not None:
+                bad.append(("cache-entry-jacobian", f"the shared cache holds a Jacobian {j} for x={x} whose linearization fails"))
+        elif j is None:
+            bad.append(("cache-entry-jacobian-missing", f"the shared cache holds no Jacobian for input x={x} although task {k} linearized it "
+                                                         f"(entries (x, y, dy/dx): {obs['final']['entries']})"))
+        elif not eq(j, want_j):
+            bad.append(("cache-entry-jacobian", f"the shared cache maps input x={x} to the Jacobian dy/dx={j}; the sequential uncached computation "
+                                                f"gives {want_j} (entries (x, y, dy/dx): {obs['final']['entries']})"))
+    if by_x:
+        bad.append(("cache-entries", f"the shared cache has entries for inputs {sorted(map(str, by_x))} that no task was given"))
+    for k, x in enumerate(xs):
+        y, j = obs["lookups"][k]
+        wy = None if k in fr else exact[k][0]
+        wj = None if (k in fr or k in fj) else exact[k][1]
+        if not ((wy is None and y is None) or (wy is not None and eq(y, wy))) or (j is not None and not (wj is not None and eq(j, wj))):
+            bad.append(("cache-lookup", f"cache[x={x}] gives outputs {y} and Jacobian {j}; the sequential computation gives {wy} and {wj}"))
+    for k, x in enumerate(xs):
+        if obs["later"][k] is None:
+            continue
+        y, j = obs["later"][k]
+        if not (eq(y, exact[k][0]) and eq(j, exact[k][1])):
+            bad.append(("later-linearization", f"a later linearization at x={x} of a discipline using the shared cache gives y={y}, dy/dx={j}; "
+                                               f"the sequential uncached computation gives {exact[k][0]}, {exact[k][1]}"))
+        if not (obs["twin"][k] is not None and eq(obs["twin"][k][0], exact[k][0]) and eq(obs["twin"][k][1], exact[k][1])):
+            bad.append(("twin", f"the sequential uncached twin gives {obs['twin'][k]} at x={x}, closed form {exact[k]}"))
+    if not bad and obs["later_new_computations"] != (0, 0):
+        bad.append(("not-transparent", f"re-linearizing at the cached inputs recomputed (runs, Jacobians) = {obs['later_new_computations']}, expected (0, 0)"))
+    seen: dict[str, str] = {}
+    for key, msg in bad:
+        seen.setdefault(key, msg)
+    return list(seen.items())
+
+
+def xlin_compare(case, obs, answers: list[str]) -> str | None:
+    """Pool transitions as usual + the shared-cache machine: after every forced cache write the real cache
+    (`get_all_entries()`, `last_entry`) is compared with the model state after the same `ko`/`kj` operation."""
+    d = compare_with_model(dict(obs, hang="skip-result", checks=[c for c in obs["checks"] if c[1] != "result"]), answers)
+    if d is not None:
+        return d
+    lines = obs["lines"]
+    for idx, snap in obs["snaps"]:
+        st = parse_state(answers[idx])
+        real = _snap_string(snap)
+        if st.get("e") != real:
+            return f"after `{lines[idx]}` (line {idx}) the model cache is (x:y:dy/dx) {st.get('e')}, the real one {real}"
+        ents = (st.get("e") or "").split(";")
+        li = int(st.get("last", "0") or 0)
+        mlast = ents[li - 1].split(":")[0] if 0 < li <= len(ents) else "_"
+        if mlast != common.orat(snap["last"]):
+            return f"after `{lines[idx]}` (line {idx}) the model's last accessed entry is x={mlast}, `last_entry` of the real cache is x={common.orat(snap['last'])}"
+    for idx, fld, _ in obs["checks"]:
+        if fld == "result":
+            ph = obs["phases"][[c[0] for c in obs["checks"] if c[1] == "result"].index(idx)]
+            kind, val = ph["result"]
+            try:
+                if kind != "returned":
+                    want = "final=1 raised:" + common.exc_class(val)
+                elif ph["what"] == "exec":
+                    want = "final=1 returned " + ",".join(common.orat(None if v is None else _scalar(v["y"])) for v in val)
+                else:
+                    want = "final=1 returned " + ",".join(common.orat(None if v is None else _scalar(v["y"]["x"])) for v in val)
+            except Exception as e:  # noqa: BLE001
+                want = f"final=1 returned?{type(e).__name__}"
+            if answers[idx] != want:
+                return f"model result `{answers[idx]}`, real `{want}`"
+    return None
+
+
+def gen_xlin_case(rng: common.Rng, mode: str, api: str | None = None, bias: str | None = None,
+                  all_workers: bool = False) -> dict[str, Any]:
+    api = api or rng.pick(["lin", "lin", "execlin", "exec+lin"] + (["lin1"] if mode == "process" else []))
+    n = rng.randint(2, 4)
+    n_procs = n if all_workers else rng.pick([2, 2, 3, n, 1])
+    xs: list[str] = []
+    while len(xs) < n:
+        t = rat(Fraction(rng.randint(-12, 12), 4))
+        if t not in xs:
+            xs.append(t)
+    case: dict[str, Any] = {"kind": "xlin", "api": api, "mode": mode, "n_procs": n_procs,
+                            "poly": [rng.randint(1, 3), rng.randint(-3, 3), rng.randint(-2, 2)], "xs": xs, "fail_run": [], "fail_jac": []}
+    if rng.chance(0.3):
+        for k in range(n):
+            r = rng.random()
+            if r < 0.15 and api != "exec+lin":
+                case["fail_run"].append(k)
+            elif r < 0.35:
+                case["fail_jac"].append(k)
+    bias = bias or rng.pick(["E-first", "E-first", "E-first-J-reverse", "uniform", "J-first"])
+    if api == "exec+lin":
+        p1 = random_xscript(rng, n, n_procs, [["E"]] * n, "uniform")
+        p2 = random_xscript(rng, n, n_procs, [["J"]] * n, rng.pick(["uniform", "E-first-J-reverse"]))
+        case["script"] = p1 + p2
+    else:
+        case["script"] = random_xscript(rng, n, n_procs, xlin_phases(dict(case, script=[]))[0]["plan"], bias)
+    return case
+
+
+def describe_xlin(case) -> str:
+    a, b, c = case["poly"]
+    return (f"shared MemoryFullCache {case['mode']} api={case['api']} y={a}x^2+{b}x+{c} xs={case['xs']} n_processes={case['n_procs']} "
+            f"failing in _run={case.get('fail_run', [])} in _compute_jacobian={case.get('fail_jac', [])} "
+            f"cache-write order={''.join(f'{s}{k} ' for s, k in case['script']).strip()}")
+
+
+def shrink_xlin_case(case, key: str):
+    def fails(c) -> bool:
+        try:
+            return any(k == key for k, _ in xlin_oracle(c, run_xlin_case(c)))
+        except Exception:  # noqa: BLE001
+            return False
+
+    cur = case
+    budget = 12
+    t_end = time.time() + SHRINK_S
+    improved = True
+    while improved and budget > 0 and time.time() < t_end:
+        improved = False
+        n = len(cur["xs"])
+        cands = []
+        for k in range(n):
+            if n <= 2:
+                break
+            ren = lambda i, k=k: i - (i > k)  # noqa: E731
+            cands.append(dict(cur, xs=cur["xs"][:k] + cur["xs"][k + 1:], fail_run=[ren(i) for i in cur.get("fail_run", []) if i != k],
+                              fail_jac=[ren(i) for i in cur.get("fail_jac", []) if i != k],
+                              script=[[s, ren(i)] for s, i in cur["script"] if i != k]))
+        if cur.get("fail_run") or cur.get("fail_jac"):
+            cands.append(dict(cur, fail_run=[], fail_jac=[], script=[a for a in cur["script"]] + [
+                ["J", k] for k in cur.get("fail_run", [])]))
+        for c in cands:
+            budget -= 1
+            if budget <= 0:
+                break
+            # a candidate script must be one the pool allows
+            try:
+                for ph in xlin_phases(c):
+                    m = XMirror(len(c["xs"]), c["n_procs"], ph["plan"])
+                    for act in ph["script"]:
+                        if tuple(act) not in m.actions():
+                            raise ValueError
+                        m.apply(tuple(act))
+                    if not m.done():
+                        raise ValueError
+            except ValueError:
+                continue
+            if fails(c):
+                cur = c
+                improved = True
+                break
+    return cur
+
+
+def check_xlin_cases(res: Result, cases: list[dict[str, Any]], deadline: float) -> None:
+    runs = []
+    for case in cases:
+        if time.time() > deadline:
+            res.notes.append(f"xlin: stopped at the time limit after {len(runs)} of {len(cases)} cases")
+            break
+        obs = usable_run(res, "xlin", run_xlin_case, case)
+        if obs is not None:
+            runs.append((case, obs))
+    lines: list[str] = []
+    for _, obs in runs:
+        lines.extend(obs["lines"])
+    answers = common.run_lean_driver(PID, lines)
+    pos = 0
+    for case, obs in runs:
+        ans = answers[pos: pos + len(obs["lines"])]
+        pos += len(obs["lines"])
+        res.evaluations += 1
+        st = f"xlin-{case['api']}"
+        res.count(f"{st}:{case['mode']}")
+        order = [tuple(a) for a in case["script"]]
+        inter = any(s == "J" and any(s2 == "E" for s2, _ in order[i + 1:]) for i, (s, _) in enumerate(order))
+        # the write pattern out(x1), out(x2), jac(x1): a Jacobian cached for an entry that is not the last one created
+        stale = False
+        latest = None
+        for s_, k_ in order:
+            if s_ == "E":
+                latest = k_
+            elif latest != k_:
+                stale = True
+        res.count(f"{st}:{'jacobian-cached-into-non-latest-entry' if stale else 'every-jacobian-into-latest-entry'}")
+        if inter:
+            res.count(f"{st}:outputs-cached-after-some-jacobian")
+        if case.get("fail_run") or case.get("fail_jac"):
+            res.count(f"{st}:with-failing-tasks")
+        res.nontrivial(("xlin", json.dumps(case, sort_keys=True)))
+        res.sample({"stream": st, "case": describe_xlin(case), "final_cache (x, y, dy/dx)": obs.get("final", {}).get("entries")}, cap=30)
+        bad = xlin_oracle(case, obs)
+        for key, msg in bad:
+            small = shrink_xlin_case(case, key)
+            if small is not case:
+                msg = dict(xlin_oracle(small, run_xlin_case(small))).get(key, msg)
+            res.violate("oracle", f"xlin-{key}", f"{msg} [{describe_xlin(small)}]"[:1100], {"kind": "xlin", "case": small})
+        diff = xlin_compare(case, obs, ans)
+        if diff is None:
+            res.traces_validated += 1
+        elif diff == SKIP:
+            res.count("xlin:schedule-not-forced-timeout")
+        else:
+            res.disagreements += 1
+            if not bad:
+                res.violate("correspondence", "xlin-model-vs-impl",
+                            f"shared-cache model and implementation disagree: {diff} [{describe_xlin(case)}]"[:1100],
+                            {"kind": "xlin", "case": case, "protocol_lines": obs["lines"], "model_answers": ans, "difference": diff,
+                             "correspondence": "Driver/C13.lean kinit/ko/kj + pool transitions"})
+
+
 # ----------------------------------------------------------------------------- run
 
 
@@ -2188,11 +2780,18 @@ def run(ctx) -> Result:
         "worker counts 1..n+1 x every assignment ok/raises/raises-a-re-raised-class, random scripts for 4-8 tasks incl. a "
         "collector blocked inside callbacks, thread and process back-ends; gated/ladder parallel DOEs vs sequential DOEs; gated "
         "DiscParallelExecution/Linearization, MDOParallelChain, parallel FD/centered/complex-step, shared MemoryFullCache; "
+        "histories of 2-3 successive execute() calls on ONE executor object (Callable/Disc execution/linearization, threads and "
+        "processes, n_processes 1-3, first call ending by a re-raised exception at task 0 / a middle task with results left unread, "
+        "then calls with other inputs); workers sharing one MemoryFullCache that execute then linearize their own input under forced "
+        "interleavings of the cache writes (DiscParallelLinearization, execute-then-linearize tasks, execution then linearization); "
         "a case is non-trivial when it has >= 2 tasks; distinct by (configuration, script)"
     )
     res.assumptions = [
         "inputs of one gated run are distinct (equal inputs would hide an index mix-up); repeated inputs/samples are used in the ungated (duration-ladder) runs",
-        "a wait longer than 20 s for an expected event is reported as a hang",
+        "no verdict depends on wall-clock time: an expected event later than 20 s makes the harness stop steering the run (the "
+        "oracle then judges only what holds for every schedule: returned values, callback log, task counts); a call that does not "
+        "return or a gated task that is not released in time discards the run, which is repeated once with doubled waits and "
+        "otherwise makes the check exit 2 (never 0 or 1); sleep ladders only bias the completion order",
         "task functions are deterministic functions of their input (a repeated DOE sample fails at all its occurrences or at none)",
     ]
     rng = ctx.rng
@@ -2228,8 +2827,32 @@ def run(ctx) -> Result:
     timed("cache", check_cache_cases, res, cache_cases, ctx.t0 + span * 0.92)
     fd_cases = [c["case"] for c in corpus if c.get("kind") == "fd"]
     fd_cases += [gen_fd_case(rng) for _ in range(400 if ctx.thorough else 24)]
-    timed("fd", check_fd_cases, res, fd_cases, ctx.t0 + span * 0.98)
+    timed("fd", check_fd_cases, res, fd_cases, ctx.t0 + span * 0.94)
+    # successive execute() calls on ONE executor: every (n_processes, where the first call re-raises) combination on
+    # both back-ends for the plain executor, then random histories over the five executor kinds
+    k = 10 if ctx.thorough else 1
+    hist_cases = [c["case"] for c in corpus if c.get("kind") == "hist"]
+    for backend in ("process", "thread"):
+        for np_ in (1, 2, 3):
+            for style in ("stop0", "stopmid"):
+                for _ in range(k):
+                    hist_cases.append(gen_hist_case(rng, backend, "callable", n_procs=np_, first_style=style))
+    hist_cases += [gen_hist_case(rng, "thread", api) for api in ("callable", "exec", "exec", "lin", "lin") for _ in range(3 * k)]
+    hist_cases += [gen_hist_case(rng, "process", api) for api in ("exec", "lin", "exec1", "lin1") for _ in range(k)]
+    timed("hist", check_hist_cases, res, hist_cases, ctx.t0 + span * 0.97)
+    # workers sharing one full cache, each executing then linearizing its input, forced interleavings of the cache writes
+    xlin_cases = [c["case"] for c in corpus if c.get("kind") == "xlin"]
+    for mode in ("thread", "process"):
+        for api in ("lin", "exec+lin", "execlin"):
+            xlin_cases += [gen_xlin_case(rng, mode, api, bias="E-first", all_workers=True) for _ in range(k)]
+    xlin_cases += [gen_xlin_case(rng, "thread") for _ in range(18 * k)] + [gen_xlin_case(rng, "process") for _ in range(3 * k)]
+    timed("xlin", check_xlin_cases, res, xlin_cases, ctx.t0 + span * 0.995)
     res.extra["stream_wall_s"] = walls
+    lost = res.extra.get("unresolved_timeouts")
+    if lost and not res.violations:
+        # never a verdict: the machinery could not force/observe these schedules in time (exit 2)
+        msg = f"{len(lost)} gated case(s) timed out twice and were skipped: {lost[:3]}"
+        raise RuntimeError(msg)
     return res
 
 
@@ -2289,6 +2912,45 @@ def replay(path: str) -> int:
               "runs_again:", obs.get("runs_again"), "hang:", obs["hang"], obs.get("cache_error"))
         for k, m in bad:
             print("ORACLE FAILS:", k, m[:600])
+        return 1 if bad else 0
+    if rp.get("kind") == "hist":
+        case = rp["case"]
+        run = run_hist_case(case)
+        bad = hist_oracle(case, run)
+        print("case:", describe_hist(case))
+        lines = [ln for o in run["calls"] for ln in o["lines"]]
+        ans = common.run_lean_driver(PID, lines) if lines else []
+        pos = 0
+        for k, o in enumerate(run["calls"]):
+            a = ans[pos: pos + len(o["lines"])]
+            pos += len(o["lines"])
+            call = case["calls"][k]
+            exp = [str(hist_value(case, i, x)) if oc == "ok" else None for i, (x, oc) in enumerate(zip(call["xs"], call["outcomes"]))]
+            print(f"call {k + 1}: execute({call['xs']}) impl: {hist_result_string(case, o)} callbacks: {o['cb_log']}")
+            print(f"         sequential map of these inputs: {exp}; model ({o['lines'][0]}): {a[-1] if a else None}"
+                  f"{' | real run left the forced schedule: ' + o['deviation'] if 'deviation' in o else ''}")
+        if run["hang"]:
+            print("no verdict (time-out):", run["hang"])
+        for k, m in bad:
+            print("ORACLE FAILS:", k, m[:700])
+        return 1 if bad else 0
+    if rp.get("kind") == "xlin":
+        case = rp["case"]
+        obs = run_xlin_case(case)
+        bad = xlin_oracle(case, obs)
+        print("case:", describe_xlin(case))
+        print("results:", [(p["what"], p["result"][0], p["cb_log"]) for p in obs["phases"]])
+        print("shared cache afterwards (x, y, dy/dx):", obs.get("final", {}).get("entries"), "| look-ups:", obs.get("lookups"))
+        print("later linearizations:", obs.get("later"), "new computations:", obs.get("later_new_computations"),
+              "| sequential uncached twin:", obs.get("twin"))
+        print("closed form (y, dy/dx):", [tuple(map(str, xlin_exact(case, x))) for x in case["xs"]])
+        if unusable(obs):
+            print("no verdict (time-out):", unusable(obs))
+        else:
+            ans = common.run_lean_driver(PID, obs["lines"])
+            print("model vs implementation:", xlin_compare(case, obs, ans) or "agree on every transition and cache write")
+        for k, m in bad:
+            print("ORACLE FAILS:", k, m[:700])
         return 1 if bad else 0
     print(json.dumps(rp, indent=1)[:3000])
     return 1
